@@ -324,6 +324,11 @@ class CallStack(deque):
         graph = cells.model.tracegraph
         if graph.has_node(node):
             graph.remove_node(node)
+        if cells.is_cached and node[KEY] in cells.data \
+                and node[KEY] not in cells.input_keys:
+            # The formula assigned its own value and failed afterwards:
+            # a failed element holds no value
+            del cells.data[node[KEY]]
 
         while self.refstack:
             if self.refstack[-1][0] == self.counter:
